@@ -686,7 +686,8 @@ def checkTypeNames : List BTree → R Unit
     else checkTypeNames r
 
 mutual
-  /-- `collectPaths` / `collectPathVariables`: `last` = source identity of the parent of the last Path directive -/
+  /-- `collectPaths` / `collectPathVariables`: `last` = identity of the parent of the last Path directive (the directive
+  object itself, F44: copies made by PASTE share their coordinates, not their identity) -/
   def pathsTree (anc : List BDir) : BTree → Option Nat → R (Option Nat)
     | .node d kids, last =>
       if d.kind == .Macro then .ok last
@@ -702,8 +703,8 @@ mutual
               match anc with
               | [] => fail d .parentNotFound
               | p :: _ =>
-                if last == some p.src then fail d .notUnique
-                else pathsForest (d :: anc) kids (some p.src)
+                if last == some p.id then fail d .notUnique
+                else pathsForest (d :: anc) kids (some p.id)
       else pathsForest (d :: anc) kids last
   def pathsForest (anc : List BDir) : List BTree → Option Nat → R (Option Nat)
     | [], last => .ok last
